@@ -89,9 +89,22 @@ func DamageJSON(t *tape.Tape, data []byte) (out []byte, desc []string, kinds []s
 				kinds = append(kinds, "json-member-lost")
 			}
 		case 2: // scalar replaced
+			if t.Bool("jd.short") {
+				// short strings are usually delimiters, release characters, type names: aim at them half of the time
+				var short []jsonSlot
+				for _, sl := range slots {
+					if sv, ok := get(sl).(string); ok && len(sv) <= 3 {
+						short = append(short, sl)
+					}
+				}
+				if len(short) > 0 {
+					a = short[t.Intn("jd.shortslot", len(short))]
+				}
+			}
 			switch get(a).(type) {
 			case string:
-				weird := []string{"", "*", ".", "..", "../..", "[", "(?", "\\", "//*", "0", "-1", " ", "a|b", "FINAL_OUTPUT", "int", "javascript"}
+				weird := []string{"", "*", ".", "..", "../..", "[", "(?", "\\", "//*", "0", "-1", " ", "a|b", "FINAL_OUTPUT", "int", "javascript",
+					"\n", "\r", "\"", "\ufffd", "\x00", "^", "$", "ab", "é"}
 				var v string
 				if len(strs) > 0 && t.Bool("jd.str.other") {
 					v = strs[t.Intn("jd.str", len(strs))]
